@@ -46,34 +46,40 @@ structure Table (π : Type) where
 def create {π : Type} : Table π :=
   { segmentCount := 1, p := 0, maxp := segmentSize, keyCount := 0, buckets := Array.replicate segmentSize [] }
 
-def address {π : Type} (t : Table π) (key : String) : Nat :=
+/-- `HASHhash(key, table)`: reads `maxp` and `p` only -/
+def addressOf (p maxp : Nat) (key : String) : Nat :=
   let h := rawHash key
-  let a := h % t.maxp
-  if a < t.p then h % (2 * t.maxp) else a
+  let a := h % maxp
+  if a < p then h % (2 * maxp) else a
 
-/-- `HASHexpand_table` -/
+def address {π : Type} (t : Table π) (key : String) : Nat := addressOf t.p t.maxp key
+
+/-- the bucket array after a possible `CALLOC` of a new segment -/
+def grow {π : Type} (bs : Array (List (String × π))) (newAddr : Nat) : Array (List (String × π)) :=
+  if newAddr % segmentSize == 0 then bs ++ Array.replicate segmentSize [] else bs
+
+/-- `HASHexpand_table`: split bucket `p`; the records whose new address is `maxp + p` move (in order) to the new
+    chain, the others stay (in order) -/
 def expand {π : Type} (t : Table π) : Table π :=
   if t.maxp + t.p < directorySize * segmentSize then
-    let oldAddr := t.p
     let newAddr := t.maxp + t.p
-    let buckets := if newAddr % segmentSize == 0 then t.buckets ++ Array.replicate segmentSize [] else t.buckets
-    let p' := t.p + 1
-    let (p'', maxp') := if p' == t.maxp then (0, t.maxp * 2) else (p', t.maxp)
-    let t' : Table π := { t with p := p'', maxp := maxp', segmentCount := t.segmentCount + 1, buckets := buckets }
-    let old := buckets.getD oldAddr []
-    let moved := old.filter (fun e => address t' e.1 == newAddr)
-    let kept := old.filter (fun e => !(address t' e.1 == newAddr))
-    { t' with buckets := (buckets.setIfInBounds oldAddr kept).setIfInBounds newAddr moved }
+    let pm : Nat × Nat := if t.p + 1 == t.maxp then (0, t.maxp * 2) else (t.p + 1, t.maxp)
+    let bs := grow t.buckets newAddr
+    let old := bs.getD t.p []
+    { segmentCount := t.segmentCount + 1, p := pm.1, maxp := pm.2, keyCount := t.keyCount,
+      buckets := (bs.setIfInBounds t.p (old.filter fun e => !(addressOf pm.1 pm.2 e.1 == newAddr))).setIfInBounds newAddr
+                   (old.filter fun e => addressOf pm.1 pm.2 e.1 == newAddr) }
   else t
 
 /-- `HASHsearch(table, item, HASH_INSERT)` (`DICTdefine` calls it): no-op when the key is present. -/
 def insert {π : Type} (t : Table π) (key : String) (v : π) : Table π :=
-  let a := address t key
-  let chain := t.buckets.getD a []
-  if chain.any (fun e => e.1 == key) then t
+  if (t.buckets.getD (address t key) []).any (fun e => e.1 == key) then t
+  else if (t.keyCount + 1) / (t.segmentCount * segmentSize) > maxLoadFactor then
+    expand { segmentCount := t.segmentCount, p := t.p, maxp := t.maxp, keyCount := t.keyCount + 1,
+             buckets := t.buckets.setIfInBounds (address t key) (t.buckets.getD (address t key) [] ++ [(key, v)]) }
   else
-    let t1 : Table π := { t with buckets := t.buckets.setIfInBounds a (chain ++ [(key, v)]), keyCount := t.keyCount + 1 }
-    if t1.keyCount / (t1.segmentCount * segmentSize) > maxLoadFactor then expand t1 else t1
+    { segmentCount := t.segmentCount, p := t.p, maxp := t.maxp, keyCount := t.keyCount + 1,
+      buckets := t.buckets.setIfInBounds (address t key) (t.buckets.getD (address t key) [] ++ [(key, v)]) }
 
 def insertAll {π : Type} (t : Table π) (kvs : List (String × π)) : Table π :=
   kvs.foldl (fun t kv => insert t kv.1 kv.2) t
